@@ -56,6 +56,7 @@ func c04(r *hx.Run) {
 	// R01~w / R01~h leave an empty document with advanced commitments: a deactivate must take effect in that state too
 	base := []string{"U01", "U12", "U01b", "R01", "R01b", "R12", "D0", "D1", "D1b", "D2", "V01", "D0i", "D0~w", "R01~h", "R01~w"}
 	fixedC := []fx.Placed{{Op: pool.Get("C"), Time: 1, Num: 0, Published: true}}
+	twoVer := hostileSecondVersion(v, 2)
 	e := &histEnum{pool: pool, alpha: base, coords: []Coord{{2, 0}, {2, 1}, {3, 0}}, depth: 3, pubModes: "p", fixed: fixedC}
 	var mu sync.Mutex
 	var deactStates [][]fx.Placed
@@ -67,6 +68,16 @@ func c04(r *hx.Run) {
 			return
 		}
 		st, _ := ResolveModel(placed, nil, delta)
+		// the same history while a later protocol version (hostile to every operation) is in force from time 2: the operations were
+		// batched under version 0 and must take effect exactly as before - a deactivate is not lost at a protocol upgrade
+		if len(HistKey(placed))%2 == 0 {
+			rm2, err2 := ResolveImpl(twoVer, pool.Suffix, placed)
+			r.Eval()
+			if a, b := ProjectImpl(rm2, err2), ProjectImpl(rm, err); a != b {
+				r.Violation("version-at-anchoring-time:"+diffFields(a, b), "base|"+HistKey(placed)+"|2ver",
+					fmt.Sprintf("history %v (all batched under protocol version 0) resolves differently when a second protocol version is in force from time 2\n  one version : %s\n  two versions: %s", placedDesc(placed), b, a), nil)
+			}
+		}
 		if st != nil && st.Deactivated != rm.Deactivated {
 			// the base states are chosen by the reference: a deactivate that silently does not take effect must not shrink the search
 			r.Violation(fmt.Sprintf("deactivation-differs-from-reference:impl=%v", rm.Deactivated), "base|"+HistKey(placed),
